@@ -204,6 +204,9 @@ class World:
                 c.append(z3.Implies(self.obj[j], dv[posixpath.dirname(self.OBJ[j])]))
         if not self.sym_dirs:
             c += [dv[d] for d in dv]
+        elif self.sym_dirs == "tied":
+            ds = [dv[d] for d in sorted(dv)]
+            c += [ds[0] == x for x in ds[1:]]      # either every shard directory exists or none (empty store)
         return c
 
     # ------------------------------------------------------------------ per path
